@@ -42,9 +42,9 @@ struct St
 
 enum { F_SHORT = 0, F_FLIP, F_DROP, F_DUP, F_NUL, F_OPEN, F_TRUNC };
 const char *fault_names[] = {"short_read", "flipped_byte", "dropped_byte", "duplicated_byte", "nul_byte", "open_failure", "file_truncated", nullptr};
-enum { P_DOC = 0, P_RTERR, P_TREE_EQUAL, P_TRUNC_IN_STRING, P_TRUNC_IN_COMMENT, P_RAW_ACCEPTED, P_DEPTH_GE4, P_SHORT_READ_HIT, P_TRUNC_AFTER_BACKSLASH, P_PRE_GE8, P_BIG_FILE, P_SOAK, P_SOAK_ACCEPTED, P_STRETCH, P_ODD_HEADER };
+enum { P_DOC = 0, P_RTERR, P_TREE_EQUAL, P_TRUNC_IN_STRING, P_TRUNC_IN_COMMENT, P_RAW_ACCEPTED, P_DEPTH_GE4, P_SHORT_READ_HIT, P_TRUNC_AFTER_BACKSLASH, P_PRE_GE8, P_BIG_FILE, P_SOAK, P_SOAK_ACCEPTED, P_STRETCH, P_ODD_HEADER, P_NONASCII_TEXT };
 const char *probe_names[] = {"returned_document", "threw_runtime_error", "tree_compared_equal", "truncated_inside_quoted_string",
-                             "truncated_inside_comment", "raw_bytes_accepted_as_document", "tree_depth_ge_4", "short_read_refused_bytes", "cut_right_after_a_backslash", "eight_or_more_rejected_reads_before_the_document", "file_of_64KiB_or_more", "same_incomplete_copy_read_200_to_1600_times_first", "incomplete_copy_accepted_500_times_or_more", "one_element_far_larger_than_the_rest", "header_with_an_unusual_version_value", nullptr};
+                             "truncated_inside_comment", "raw_bytes_accepted_as_document", "tree_depth_ge_4", "short_read_refused_bytes", "cut_right_after_a_backslash", "eight_or_more_rejected_reads_before_the_document", "file_of_64KiB_or_more", "same_incomplete_copy_read_200_to_1600_times_first", "incomplete_copy_accepted_500_times_or_more", "one_element_far_larger_than_the_rest", "header_with_an_unusual_version_value", "text_content_with_non_ascii_bytes", nullptr};
 
 const char IDCH1[] = "abcXYZ_";
 const char IDCH[] = "abcxyzABC019_.";
@@ -100,6 +100,8 @@ void gen_tree(GNode &n, int depth, int maxdepth, int maxfan, int &budget)
         v += '\'';
       } else if (u == 1 && plainq == 2) {
         v += '"';
+      } else if (u == 2 && plainq == 3) {
+        v += "\xc3\x9f";  // a non-ASCII character inside a value
       } else {
         v += VALCH[sim_plan(sizeof VALCH - 1)];
       }
@@ -109,8 +111,17 @@ void gen_tree(GNode &n, int depth, int maxdepth, int maxfan, int &budget)
   if (sim_plan(3) == 0) {
     unsigned tl = 1 + sim_plan(10);
     std::string t;
-    for (unsigned j = 0; j < tl; j++)
-      t += TXTCH[sim_plan(sizeof TXTCH - 1)];
+    // text is UTF-8 (or Latin-1) as often as ASCII: bytes above 0x7f anywhere, also first and last
+    static const char *const NONASCII[] = {"\xc3\x96", "\xc2\xb5", "\xe6\x97\xa5", "\xd6", "\xe9", "\xc3\xa4\xc3\xb6"};
+    const bool intl = sim_plan(3) == 0;
+    if (intl)
+      sim_probe(P_NONASCII_TEXT);
+    for (unsigned j = 0; j < tl; j++) {
+      if (intl && sim_plan(3) == 0)
+        t += NONASCII[sim_plan(6)];
+      else
+        t += TXTCH[sim_plan(sizeof TXTCH - 1)];
+    }
     // trimmed, non-empty: starts and ends with a non-white character
     size_t a = t.find_first_not_of(" \t"), b = t.find_last_not_of(" \t");
     if (a != std::string::npos)
